@@ -651,7 +651,10 @@ func (c *Cluster) scheduleRestart(n *SNode) {
 			return
 		}
 		if c.Cfg.StartCutRate > 0 && c.Rng.Chance(c.Cfg.StartCutRate) {
-			n.StartCrashAt = 1 + c.Rng.IntN(5) // the restart after a stop is itself cut once
+			n.StartCrashAt = 1 // the restart after a stop is itself cut once (few start-ups commit more than once)
+			if c.Rng.Chance(0.3) {
+				n.StartCrashAt = 2 + c.Rng.IntN(3)
+			}
 		}
 		if err := c.Restart(n); err != nil {
 			c.Violate("C22", "restart-failed", err.Error(), n)
